@@ -95,4 +95,11 @@ def corruptions(toks, rnd, n):
                 continue
             del t[rnd.choice(idx)]
         out.append((k, ' '.join(t) + '\n', t))
+    # a misspelled constructor (a member `Name(` at statement start whose name is a class name): always out of dialect
+    classes = {toks[j + 1] for j in range(len(toks) - 1) if toks[j] == 'class'}
+    ctors = [j for j in range(1, len(toks) - 1) if toks[j] in classes and toks[j + 1] == '(' and toks[j - 1] in ('{', ';', '}', '>')]
+    for j in rnd.sample(ctors, min(2, len(ctors))):
+        t = list(toks)
+        t[j] = t[j] + 'x'
+        out.append(('misspell-ctor', ' '.join(t) + '\n', t))
     return out
